@@ -57,6 +57,8 @@ def run(ctx):
         wrappers.vv_conversions(ctx, rep, roles, "C03", "R03.7")
         # "no heartbeat recorded for X exceeds X's own": the owner's heartbeat never goes back (no wrap)
         wrappers.heartbeat_inc(ctx, rep, roles, "C03", "R03.9")
+        from .. import identity as _idn
+        _idn.check_keys(ctx, rep, "C03", "R03.10", ["cluster", "kv", "digest"])
         from .. import identity
         identity.check(ctx, rep, "C03", "R03.8", ["id-eq", "id-ord", "vv-clone", "kvm-clone", "dsm-eq"])
     except ModelError as e:
